@@ -538,6 +538,10 @@ def cmp(op, a, b):
         return bconst({"<": x < 0, "<=": x <= 0, "==": x == 0, "!=": x != 0}[op])
     if op == "!=":
         return bnot(_mk("cmp", ("==", a, b), "B"))
+    if op == "<=":
+        # a <= b  is  not (b < a): one primitive order relation, so that a
+        # fact and the negation of a guard are recognised as the same literal
+        return bnot(_mk("cmp", ("<", b, a), "B"))
     if op == "==" and b.id < a.id:
         a, b = b, a
     return _mk("cmp", (op, a, b), "B")
@@ -1104,3 +1108,50 @@ def cross_ne(a, b):
     na, da = numden(a, memo)
     nb, db = numden(b, memo)
     return ne(mul(na, db), mul(nb, da))
+
+
+# ------------------------------------------------- abstraction of constants
+
+
+def abstract_free(roots, dep_vars, prefix="K"):
+    """Replace every maximal subterm that does not depend on any of dep_vars
+    (nor on an uninterpreted application of them) by a fresh variable.  Equal
+    subterms get the same variable.  Proving an identity on the abstraction
+    proves it for the original terms (the fresh variables are universally
+    quantified); a counterexample of the abstraction need not be one."""
+    dep = set(dep_vars)
+    depends = {}
+    order = postorder(roots)
+    for t in order:
+        if t.op == "var":
+            depends[t] = t in dep
+        elif t.op in ("const", "bconst"):
+            depends[t] = False
+        else:
+            depends[t] = any(depends[a] for a in t.args if isinstance(a, Term))
+    mapping = {}
+    new = {}
+    count = [0]
+
+    def fresh_for(t):
+        if t not in mapping:
+            count[0] += 1
+            mapping[t] = var("%s!%d" % (prefix, count[0]), t.sort if t.sort in ("R", "I") else "R")
+        return mapping[t]
+
+    for t in order:
+        if not depends[t]:
+            if t.op in ("const", "bconst", "var") or t.sort == "B":
+                new[t] = t
+            else:
+                new[t] = fresh_for(t)
+            continue
+        if t.op == "var":
+            new[t] = t
+            continue
+        args = [new[a] if isinstance(a, Term) else a for a in t.args]
+        if all(x is y for x, y in zip(args, t.args)):
+            new[t] = t
+        else:
+            new[t] = rebuild(t.op, args, t.sort)
+    return [new[r] for r in roots], mapping
